@@ -57,13 +57,13 @@ type c01In struct {
 	To   string `json:"to,omitempty"`
 	Lang string `json:"lang,omitempty"`
 	// message / presence children
-	Subject  string  `json:"subject,omitempty"`
-	Body     string  `json:"body,omitempty"`
-	Thread   string  `json:"thread,omitempty"`
-	Show     string  `json:"show,omitempty"`
-	Status   string  `json:"status,omitempty"`
-	Priority int     `json:"priority,omitempty"`
-	Err      *c01Err `json:"err,omitempty"` // message/presence: nil = zero Err; iq: nil pointer
+	Subject  string   `json:"subject,omitempty"`
+	Body     string   `json:"body,omitempty"`
+	Thread   string   `json:"thread,omitempty"`
+	Show     string   `json:"show,omitempty"`
+	Status   string   `json:"status,omitempty"`
+	Priority int      `json:"priority,omitempty"`
+	Err      *c01Err  `json:"err,omitempty"` // message/presence: nil = zero Err; iq: nil pointer
 	Exts     []c01Ext `json:"exts,omitempty"`
 	Payload  *c01Ext  `json:"payload,omitempty"`
 	Any      *c01Node `json:"any,omitempty"` // iq: Any; kind node: the node
@@ -97,7 +97,7 @@ func (c01) ID() string    { return "C01" }
 func (c01) RunFn() string { return "run_C01" }
 func (c01) Workers() int  { return 8 }
 func (c01) Rule() string {
-	return "exhaustive: 3 stanza kinds x 2^5 presence patterns of type/id/from/to/lang x {no child, each child alone}; random: text fields from a pool (ASCII, each XML metacharacter alone and mixed, ]]>, blank-padded, TAB/LF/CR, non-ASCII, astral, 2 kB), Err with code 0/non-zero x fields empty/set, generic Node trees depth<=5 width<=4 with attributes and namespaces, registered extensions (subsets, order, repetition) filled by reflection, SM/SASL-auth/handshake elements; oracle-only reflection cases for every registered type and stream element, alone and inside its stanza kind; distinct = kind + presence pattern of every field + text class + tree shape; non-trivial = at least one non-empty field besides the kind"
+	return "exhaustive: 3 stanza kinds x 2^5 presence patterns of type/id/from/to/lang x {no child, each child alone}; random: text fields from a pool (ASCII, each XML metacharacter alone and mixed, ]]>, blank-padded, TAB/LF/CR, non-ASCII, astral, 2 kB), Err with code 0/non-zero x fields empty/set, generic Node trees depth<=5 width<=4 with attributes and namespaces, registered extensions (subsets, order, repetition) filled by reflection, SM/SASL-auth/handshake elements; oracle-only reflection cases for every registered type and the SM/SASL/handshake elements, alone and inside its stanza kind; oracle-only noise cases: every registered type inside its stanza kind with unknown children and same-named descendants (of the extension, of the enclosing element, of the stanza, of the core children) injected at random places of the extension's bytes, typed fields compared with the clean decode; domain: an IQ whose Error pointer is non-nil and points to the all-empty Err is excluded (written as nothing, read back as nil; kept as a hypothesis of the theorem, wf_iq), generated only as an out-of-domain model/code comparison; distinct = kind + presence pattern of every field + text class + tree shape; non-trivial = at least one non-empty field besides the kind"
 }
 
 // ---------------------------------------------------------------- pools
@@ -180,6 +180,7 @@ var c01NameT = reflect.TypeOf(xml.Name{})
 var c01TimeT = reflect.TypeOf(time.Time{})
 var c01NullIntT = reflect.TypeOf(stanza.NullableInt{})
 var c01HistoryT = reflect.TypeOf(stanza.History{})
+var c01ForwardedT = reflect.TypeOf(stanza.Forwarded{})
 
 func c01TagInfo(f reflect.StructField) (name string, flags map[string]bool) {
 	flags = map[string]bool{}
@@ -195,8 +196,28 @@ func c01TagInfo(f reflect.StructField) (name string, flags map[string]bool) {
 	return
 }
 
+// implementations the hand-written decoders produce for the interface-typed fields
+var c01Impls = map[reflect.Type][]reflect.Type{
+	reflect.TypeOf((*stanza.EventElement)(nil)).Elem(): {reflect.TypeOf(stanza.CollectionEvent{}), reflect.TypeOf(stanza.ConfigurationEvent{}),
+		reflect.TypeOf(stanza.DeleteEvent{}), reflect.TypeOf(stanza.ItemsEvent{}), reflect.TypeOf(stanza.PurgeEvent{}), reflect.TypeOf(stanza.SubscriptionEvent{})},
+	reflect.TypeOf((*stanza.AssocDisassoc)(nil)).Elem(): {reflect.TypeOf(stanza.AssociateEvent{}), reflect.TypeOf(stanza.DisassociateEvent{})},
+	reflect.TypeOf((*stanza.OwnerUseCase)(nil)).Elem(): {reflect.TypeOf(stanza.AffiliationsOwner{}), reflect.TypeOf(stanza.ConfigureOwner{}),
+		reflect.TypeOf(stanza.DefaultOwner{}), reflect.TypeOf(stanza.DeleteOwner{}), reflect.TypeOf(stanza.PurgeOwner{}), reflect.TypeOf(stanza.SubscriptionsOwner{})},
+	reflect.TypeOf((*stanza.CommandElement)(nil)).Elem(): {reflect.TypeOf(stanza.Actions{}), reflect.TypeOf(stanza.Note{}), reflect.TypeOf(stanza.Form{}), reflect.TypeOf(stanza.Node{})},
+}
+
 func c01Fill(v reflect.Value, r *rand.Rand, depth int, plainText bool) {
 	switch v.Kind() {
+	case reflect.Interface:
+		impls := c01Impls[v.Type()]
+		if len(impls) == 0 || depth > 4 || r.Intn(4) == 0 {
+			return
+		}
+		p := reflect.New(impls[r.Intn(len(impls))])
+		c01Fill(p.Elem(), r, depth+1, false)
+		if p.Type().Implements(v.Type()) {
+			v.Set(p)
+		}
 	case reflect.Struct:
 		if v.Type() == c01NameT {
 			v.Set(reflect.ValueOf(xml.Name{Space: c01Spaces[r.Intn(3)], Local: c01Names[r.Intn(len(c01Names))]}))
@@ -205,6 +226,17 @@ func c01Fill(v reflect.Value, r *rand.Rand, depth int, plainText bool) {
 		if v.Type() == c01TimeT {
 			if r.Intn(2) == 0 {
 				v.Set(reflect.ValueOf(time.Unix(1500000000+int64(r.Intn(1000000)), 0).UTC()))
+			}
+			return
+		}
+		if v.Type() == c01ForwardedT { // Stanza is an interface: put in what decodeClient produces
+			switch r.Intn(4) {
+			case 0:
+				v.Field(1).Set(reflect.ValueOf(stanza.Message{Attrs: stanza.Attrs{Id: c01OptText(r), Type: "chat", From: c01OptText(r)}, Body: c01OptText(r), Thread: c01OptText(r)}))
+			case 1:
+				v.Field(1).Set(reflect.ValueOf(stanza.Presence{Attrs: stanza.Attrs{Id: c01OptText(r), To: c01OptText(r)}, Status: c01OptText(r), Priority: int8(r.Intn(256) - 128)}))
+			case 2:
+				v.Field(1).Set(reflect.ValueOf(&stanza.IQ{Attrs: stanza.Attrs{Id: c01OptText(r), Type: "get", Lang: c01OptText(r)}}))
 			}
 			return
 		}
@@ -236,7 +268,7 @@ func c01Fill(v reflect.Value, r *rand.Rand, depth int, plainText bool) {
 		v.Set(reflect.New(v.Type().Elem()))
 		c01Fill(v.Elem(), r, depth+1, plainText)
 	case reflect.Slice:
-		if depth > 4 || v.Type().Elem().Kind() == reflect.Interface {
+		if depth > 4 || (v.Type().Elem().Kind() == reflect.Interface && c01Impls[v.Type().Elem()] == nil) {
 			return
 		}
 		n := r.Intn(3)
@@ -266,7 +298,23 @@ func c01Fill(v reflect.Value, r *rand.Rand, depth int, plainText bool) {
 }
 
 // c01Canon: comparison form modulo XMLName.Space / fixed names and nil-vs-empty slices.
-func c01Canon(v reflect.Value) interface{} {
+func c01Canon(v reflect.Value) interface{} { return c01CanonOpt(v, false) }
+
+var c01NodeT = reflect.TypeOf(stanza.Node{})
+
+// c01IsGeneric: a place where the typed codecs legitimately keep content they do not know
+// (generic Node values)
+func c01IsGeneric(t reflect.Type) bool {
+	for t.Kind() == reflect.Ptr || t.Kind() == reflect.Slice {
+		t = t.Elem()
+	}
+	return t == c01NodeT
+}
+
+// c01CanonOpt: dropGeneric leaves out generic Node captures, ,any and ,innerxml fields (used
+// when unknown children were injected: those are the places where they may legitimately show up)
+func c01CanonOpt(v reflect.Value, dropGeneric bool) interface{} {
+	c01Canon := func(x reflect.Value) interface{} { return c01CanonOpt(x, dropGeneric) }
 	switch v.Kind() {
 	case reflect.Struct:
 		if v.Type() == c01TimeT {
@@ -283,12 +331,15 @@ func c01Canon(v reflect.Value) interface{} {
 			if f.PkgPath != "" {
 				continue
 			}
-			name, _ := c01TagInfo(f)
+			name, flags := c01TagInfo(f)
 			if f.Name == "XMLName" && f.Type == c01NameT {
 				if name != "" || t == c01HistoryT {
 					continue
 				}
 				out = append(out, f.Name, v.Field(i).Interface().(xml.Name).Local)
+				continue
+			}
+			if dropGeneric && (flags["innerxml"] || flags["any"] || c01IsGeneric(f.Type)) {
 				continue
 			}
 			out = append(out, f.Name, c01Canon(v.Field(i)))
@@ -303,9 +354,16 @@ func c01Canon(v reflect.Value) interface{} {
 		if v.Len() == 0 {
 			return nil
 		}
-		out := make([]interface{}, v.Len())
-		for i := range out {
-			out[i] = c01Canon(v.Index(i))
+		var out []interface{}
+		for i := 0; i < v.Len(); i++ {
+			e := v.Index(i)
+			if dropGeneric && e.Kind() == reflect.Interface && !e.IsNil() && c01IsGeneric(e.Elem().Type()) {
+				continue
+			}
+			out = append(out, c01Canon(e))
+		}
+		if len(out) == 0 {
+			return nil
 		}
 		return out
 	case reflect.String:
@@ -828,7 +886,7 @@ func (c01) Decode(raw json.RawMessage) (interface{}, error) {
 
 func (c01) Run(inp interface{}) Sx {
 	in := inp.(c01In)
-	if in.Kind == "reflect" {
+	if in.Kind == "reflect" || in.Kind == "noise" {
 		return L(Z(0)) // oracle-only case: no model counterpart
 	}
 	v, fresh := c01Build(in)
@@ -848,7 +906,7 @@ func (c01) Run(inp interface{}) Sx {
 
 func (c01) Input(inp interface{}) Sx {
 	in := inp.(c01In)
-	if in.Kind == "reflect" {
+	if in.Kind == "reflect" || in.Kind == "noise" {
 		return L(Z(0))
 	}
 	v, _ := c01Build(in)
@@ -1004,6 +1062,9 @@ func (c01) Oracle(inp interface{}, obs Sx) (string, string) {
 	if in.Kind == "reflect" {
 		return c01ReflectRoundTrip(in.GoType, in.Seed, in.Wrap)
 	}
+	if in.Kind == "noise" {
+		return c01NoiseRoundTrip(in.GoType, in.Seed, in.Wrap)
+	}
 	goName := map[string]string{"message": "stanza.Message", "presence": "stanza.Presence", "iq": "stanza.IQ", "node": "stanza.Node",
 		"smenable": "stanza.SMEnable", "smenabled": "stanza.SMEnabled", "smrequest": "stanza.SMRequest", "smanswer": "stanza.SMAnswer",
 		"smresume": "stanza.SMResume", "smresumed": "stanza.SMResumed", "smfailed": "stanza.SMFailed", "saslauth": "stanza.SASLAuth",
@@ -1111,9 +1172,9 @@ func c01NodeShape(n *c01Node, depth int) (string, int, int) {
 func (c01) Key(inp interface{}) (string, bool) {
 	in := inp.(c01In)
 	hist("kind:" + in.Kind)
-	if in.Kind == "reflect" {
-		hist("reflect:" + in.GoType + map[bool]string{true: "", false: " in " + in.Wrap}[in.Wrap == ""])
-		return fmt.Sprintf("reflect/%s/%s/%d", in.GoType, in.Wrap, in.Seed), true
+	if in.Kind == "reflect" || in.Kind == "noise" {
+		hist(in.Kind + ":" + in.GoType + map[bool]string{true: "", false: " in " + in.Wrap}[in.Wrap == ""])
+		return fmt.Sprintf("%s/%s/%s/%d", in.Kind, in.GoType, in.Wrap, in.Seed), true
 	}
 	var sb strings.Builder
 	sb.WriteString(in.Kind + "|")
@@ -1382,8 +1443,7 @@ func (c01) Gen(r *rand.Rand, tier string) []interface{} {
 				in.H = c01U64(r)
 			}
 		case "smfailed":
-			// H is in the value but never decoded: recorded finding, generated rarely
-			if r.Intn(8) == 0 {
+			if r.Intn(2) == 0 {
 				in.H = c01U64(r)
 			}
 		case "saslauth":
@@ -1417,5 +1477,237 @@ func (c01) Gen(r *rand.Rand, tier string) []interface{} {
 			add(c01In{Kind: "reflect", GoType: t, Seed: int64(s)})
 		}
 	}
+	// oracle-only noise cases: every registered type inside its stanza kind, with unknown
+	// children and same-named descendants injected into the extension's bytes
+	nnoise := 6
+	if tier == "thorough" {
+		nnoise = 150
+	}
+	for _, e := range regs {
+		if e.Local == "*" {
+			continue
+		}
+		for s := 0; s < nnoise; s++ {
+			add(c01In{Kind: "noise", GoType: e.GoType, Seed: int64(s), Wrap: []string{"presence", "message", "iq"}[e.Kind]})
+		}
+	}
 	return out
+}
+
+// ---------------------------------------------------------------- noise: unknown children inside extensions
+
+const c01NoiseNS = "urn:verif:noise"
+
+type c01Pos struct {
+	off              int
+	parentL, parentN string // name of the enclosing element (namespace as written, escaped)
+}
+
+// c01InsertPoints: offsets just after a tag, inside the root element. The bytes come from
+// Go's encoder: < and > occur in tags only, the namespace declaration is the first attribute.
+func c01InsertPoints(b []byte) (pts []c01Pos, rootL, rootN string) {
+	type el struct{ l, n string }
+	var stack []el
+	for i := 0; i < len(b); i++ {
+		if b[i] != '<' {
+			continue
+		}
+		j := bytes.IndexByte(b[i:], '>')
+		if j < 0 {
+			break
+		}
+		j += i
+		tag := string(b[i+1 : j])
+		if strings.HasPrefix(tag, "/") {
+			if len(stack) > 0 {
+				stack = stack[:len(stack)-1]
+			}
+			if len(stack) > 0 {
+				pts = append(pts, c01Pos{j + 1, stack[len(stack)-1].l, stack[len(stack)-1].n})
+			}
+		} else {
+			name, rest := tag, ""
+			if k := strings.IndexByte(tag, ' '); k >= 0 {
+				name, rest = tag[:k], tag[k:]
+			}
+			ns := ""
+			if len(stack) > 0 {
+				ns = stack[len(stack)-1].n
+			}
+			if strings.HasPrefix(rest, ` xmlns="`) {
+				v := rest[len(` xmlns="`):]
+				if k := strings.IndexByte(v, '"'); k >= 0 {
+					ns = v[:k]
+				}
+			}
+			if len(stack) == 0 {
+				rootL, rootN = name, ns
+			}
+			stack = append(stack, el{name, ns})
+			pts = append(pts, c01Pos{j + 1, name, ns})
+		}
+		i = j
+	}
+	return
+}
+
+func c01El(l, n, inner string) string {
+	return "<" + l + ` xmlns="` + n + `">` + inner + "</" + l + ">"
+}
+
+func c01NoiseEl(r *rand.Rand, depth int, rootL, rootN, parL, parN, stanzaName string) string {
+	var sb strings.Builder
+	for i := r.Intn(4); i > 0; i-- {
+		switch r.Intn(8) {
+		case 0:
+			sb.WriteString("noise &amp; text")
+		case 1: // same name as the extension
+			sb.WriteString(c01El(rootL, rootN, ""))
+		case 2: // same name as the enclosing element
+			sb.WriteString(c01El(parL, parN, "x"))
+		case 3: // a whole stanza of the carrying kind
+			sb.WriteString("<" + stanzaName + ` xmlns="jabber:client" id="evil" type="evil" from="evil"><body>evil</body><status>evil</status><error code="9" type="evil"></error></` + stanzaName + ">")
+		case 4: // the core children
+			sb.WriteString(`<body xmlns="">evil</body><subject xmlns="jabber:client">evil</subject><status xmlns="">evil</status><priority xmlns="">9</priority><error xmlns="" code="9"></error>`)
+		case 5:
+			if depth < 3 {
+				sb.WriteString(c01NoiseEl(r, depth+1, rootL, rootN, parL, parN, stanzaName))
+			}
+		case 6: // enclosing element containing the extension again
+			sb.WriteString(c01El(parL, parN, c01El(rootL, rootN, c01El(parL, parN, ""))))
+		case 7: // typical typed children of the hand-written codecs, in the extension's namespace
+			sb.WriteString(c01El("item", rootN, "") + c01El("items", rootN, "") + c01El("history", rootN, "") + c01El("note", rootN, "evil") + c01El("actions", rootN, ""))
+		}
+	}
+	name := fmt.Sprintf("vn%d", r.Intn(4))
+	return "<" + name + ` xmlns="` + c01NoiseNS + `" id="evil" type="evil" node="evil">` + sb.String() + "</" + name + ">"
+}
+
+// c01NoiseRoundTrip: the extension (filled by reflection) is carried in a stanza; unknown
+// children are injected into the extension's bytes; the stanza must decode, its own fields
+// must be untouched and the extension's typed fields must be those of the clean decode.
+func c01NoiseRoundTrip(goType string, seed int64, wrap string) (msg, sig string) {
+	p, ok := c01NewFilled(goType, seed)
+	if !ok {
+		return "unknown Go type " + goType, "harness:unknown-type"
+	}
+	eb, err := xml.Marshal(p.Interface())
+	if err != nil || len(eb) == 0 {
+		return "", "" // does not marshal on its own: the reflect cases report that
+	}
+	r := rand.New(rand.NewSource(seed*7919 + c01Hash(goType)%100000))
+	pts, rootL, rootN := c01InsertPoints(eb)
+	if len(pts) == 0 {
+		return "", ""
+	}
+	k := 1 + r.Intn(3)
+	chosen := map[int]c01Pos{}
+	for i := 0; i < k; i++ {
+		pt := pts[r.Intn(len(pts))]
+		chosen[pt.off] = pt
+	}
+	offs := make([]int, 0, len(chosen))
+	for o := range chosen {
+		offs = append(offs, o)
+	}
+	sort.Sort(sort.Reverse(sort.IntSlice(offs)))
+	nb := append([]byte{}, eb...)
+	for _, o := range offs {
+		pt := chosen[o]
+		ins := c01NoiseEl(r, 1, rootL, rootN, pt.parentL, pt.parentN, wrap)
+		nb = append(nb[:o], append([]byte(ins), nb[o:]...)...)
+	}
+	var open, closeTag string
+	switch wrap {
+	case "message":
+		open, closeTag = `<message id="i" type="chat">`, `<body>after</body></message>`
+	case "presence":
+		open, closeTag = `<presence id="i" type="t">`, `<status>after</status></presence>`
+	case "iq":
+		open, closeTag = `<iq id="i" type="result">`, `</iq>`
+	}
+	decode := func(ext []byte) (stz interface{}, got reflect.Value, why string) {
+		doc := open + string(ext) + closeTag
+		switch wrap {
+		case "message":
+			m := &stanza.Message{}
+			if err := xml.Unmarshal([]byte(doc), m); err != nil {
+				return nil, reflect.Value{}, "error:" + err.Error()
+			}
+			if len(m.Extensions) != 1 {
+				return m, reflect.Value{}, fmt.Sprintf("dispatch:%d extensions", len(m.Extensions))
+			}
+			return m, reflect.ValueOf(m.Extensions[0]), ""
+		case "presence":
+			m := &stanza.Presence{}
+			if err := xml.Unmarshal([]byte(doc), m); err != nil {
+				return nil, reflect.Value{}, "error:" + err.Error()
+			}
+			if len(m.Extensions) != 1 {
+				return m, reflect.Value{}, fmt.Sprintf("dispatch:%d extensions", len(m.Extensions))
+			}
+			return m, reflect.ValueOf(m.Extensions[0]), ""
+		default:
+			m := &stanza.IQ{}
+			if err := xml.Unmarshal([]byte(doc), m); err != nil {
+				return nil, reflect.Value{}, "error:" + err.Error()
+			}
+			if m.Payload == nil {
+				return m, reflect.Value{}, "dispatch:no payload"
+			}
+			return m, reflect.ValueOf(m.Payload), ""
+		}
+	}
+	_, clean, why := decode(eb)
+	if why != "" {
+		return "", "" // the clean document does not decode: the reflect cases report that
+	}
+	stz, noisy, why := decode(nb)
+	where := fmt.Sprintf("%s in %s seed %d", goType, wrap, seed)
+	if strings.HasPrefix(why, "error:") {
+		return fmt.Sprintf("%s: with unknown children inside the extension the stanza no longer decodes (%s): %q", where, why[6:], c01Short(nb)), "noise:" + goType + ":unmarshal-error"
+	}
+	if why != "" {
+		return fmt.Sprintf("%s: with unknown children inside the extension: %s: %q", where, why, c01Short(nb)), "noise:" + goType + ":dispatch"
+	}
+	// the stanza's own fields
+	bad := ""
+	switch m := stz.(type) {
+	case *stanza.Message:
+		if m.Id != "i" || m.Type != "chat" || m.From != "" || m.To != "" || m.Lang != "" || m.Body != "after" || m.Subject != "" || m.Thread != "" || m.Error != (stanza.Err{}) {
+			bad = fmt.Sprintf("%+v", *m)
+		}
+	case *stanza.Presence:
+		if m.Id != "i" || m.Type != "t" || m.From != "" || m.To != "" || m.Lang != "" || m.Status != "after" || m.Show != "" || m.Priority != 0 || m.Error != (stanza.Err{}) {
+			bad = fmt.Sprintf("%+v", *m)
+		}
+	case *stanza.IQ:
+		if m.Id != "i" || m.Type != "result" || m.From != "" || m.To != "" || m.Lang != "" || m.Error != nil || m.Any != nil {
+			bad = fmt.Sprintf("%+v", *m)
+		}
+	}
+	if bad != "" {
+		return fmt.Sprintf("%s: unknown children inside the extension changed the stanza's own fields: %s from %q", where, c01Short([]byte(bad)), c01Short(nb)), "noise:" + goType + ":stanza-fields"
+	}
+	if clean.Type() != noisy.Type() {
+		return fmt.Sprintf("%s: extension decoded as %s instead of %s", where, noisy.Type(), clean.Type()), "noise:" + goType + ":dispatch"
+	}
+	a, b := clean, noisy
+	if a.Kind() == reflect.Ptr {
+		a, b = a.Elem(), b.Elem()
+	}
+	if a.Kind() == reflect.Struct {
+		t := a.Type()
+		for i := 0; i < t.NumField(); i++ {
+			f := t.Field(i)
+			name, flags := c01TagInfo(f)
+			if f.PkgPath != "" || (f.Name == "XMLName" && name != "") || flags["innerxml"] || flags["any"] || c01IsGeneric(f.Type) {
+				continue
+			}
+			if !reflect.DeepEqual(c01CanonOpt(a.Field(i), true), c01CanonOpt(b.Field(i), true)) {
+				return fmt.Sprintf("%s: typed field %s differs from the clean decode when unknown children are present: clean %q noisy %q", where, f.Name, c01Short(eb), c01Short(nb)), "noise:" + goType + ":" + f.Name
+			}
+		}
+	}
+	return "", ""
 }
